@@ -932,23 +932,31 @@ def find_calls(body, names=None, pred=None, blocks=None):
     """yield (bb, term) for calls whose def/res path is in names (exact or '::'-suffix match)"""
     for bb, t in body.calls(blocks):
         if names is not None:
-            cn = callee_names(t)
-            hit = False
-            for n in names:
-                for c in cn:
-                    if c == n or c.endswith("::" + n):
-                        hit = True
-            if not hit:
+            if not any(name_matches(c, names) for c in callee_names(t)):
                 continue
         if pred is not None and not pred(t):
             continue
         yield bb, t
 
 
+_MAP_RX = None
+
+
 def name_matches(path, names):
+    """exact / '::'-suffix match; a std HashMap method also matches the same method of wrapper maps
+    (ahash::AHashMap, indexmap::IndexMap, hashbrown::HashMap) so that rules are feature-configuration independent"""
+    import re as _re
+    global _MAP_RX
+    if _MAP_RX is None:
+        _MAP_RX = _re.compile(r"^(?:std::collections::HashMap::<K, V, S(?:, A)?>|ahash::AHashMap::<K, V(?:, S)?>|indexmap::IndexMap::<K, V(?:, S)?>|hashbrown::HashMap::<K, V, S(?:, A)?>)::(\w+)$")
     for n in names:
         if path == n or path.endswith("::" + n):
             return True
+        m = _MAP_RX.match(n)
+        if m:
+            m2 = _MAP_RX.match(path)
+            if m2 and m2.group(1) == m.group(1):
+                return True
     return False
 
 
@@ -1185,7 +1193,8 @@ def field_accesses(crate, owner, field, bodies=None):
                 if rv["k"] == "agg" and rv.get("ak") == "adt" and (rv["adt"] == owner or rv["adt"].endswith("::" + owner)) and field in rv.get("fields", []):
                     out.append({"body": b, "bb": bb, "idx": idx, "kind": "agg-init", "callee": None, "mut": True,
                                 "op": rv["ops"][rv["fields"].index(field)]})
-        # propagate refs through plain moves/reborrows
+        # propagate refs through plain moves/reborrows and Deref/DerefMut (wrapper maps such as ahash::AHashMap)
+        DEREFS = ("std::ops::Deref::deref", "std::ops::DerefMut::deref_mut")
         changed = True
         while changed:
             changed = False
@@ -1200,7 +1209,15 @@ def field_accesses(crate, owner, field, bodies=None):
                     if src in refs:
                         refs[s["pl"]["l"]] = refs[src]
                         changed = True
+                elif idx == "t" and s["k"] == "call" and callee_def(s) in DEREFS and s["args"] and not s["dest"]["p"] and s["dest"]["l"] not in refs:
+                    a = s["args"][0]
+                    if a["k"] in ("copy", "move") and not a["pl"]["p"] and a["pl"]["l"] in refs:
+                        m0, w0 = refs[a["pl"]["l"]]
+                        refs[s["dest"]["l"]] = (m0 and callee_def(s).endswith("deref_mut"), w0)
+                        changed = True
         for bb, t in b.calls():
+            if callee_def(t) in DEREFS:
+                continue
             for ai, a in enumerate(t["args"]):
                 if a["k"] in ("copy", "move") and not a["pl"]["p"] and a["pl"]["l"] in refs:
                     mut, whole = refs[a["pl"]["l"]]
